@@ -192,6 +192,7 @@ fn exec_line(line: &str) -> String {
 
 fn main() {
     let args: Vec<String> = std::env::args().collect();
+    std::panic::set_hook(Box::new(|_| {}));
     match args.get(1).map(|s| s.as_str()) {
         Some("exec") => {
             let so = std::io::stdout();
